@@ -3,10 +3,10 @@ package main
 // Verification units: one function body against its contract; one lemma.
 
 import (
-	"sort"
 	"fmt"
 	"go/types"
 	"runtime"
+	"sort"
 	"strings"
 
 	"golang.org/x/tools/go/ssa"
